@@ -37,11 +37,11 @@ func TestMain(m *testing.M) { stats.Main(m) }
 
 // Known-finding keys (see /verif/known_findings.json).
 const (
-	kNilUnit0  = "c19-construct-nil-unit0"            // ConstructMessageFromUnits reads units[0] although nil marks a missing shard
-	kNonce     = "c19-create-units-nonce-unset"       // CreatePropellerUnits signs `nonce` but leaves Unit.Nonce zero
-	kLeaf      = "c19-merkle-leaf-encoding-mismatch"  // producer/reconstruction commit to raw shards, validator checks proto-encoded ShardsOfPeer
-	kUnpad     = "c19-unpad-length-overflow"          // UnpadMessage: varintLen+msgLen wraps for msgLen >= 2^64-10 -> slice panic
-	kFromProto = "c19-unitfromproto-malformed-panic"  // UnitFromProto panics on zero shards / merkle_root shorter than 32 bytes
+	kNilUnit0  = "c19-construct-nil-unit0"           // ConstructMessageFromUnits reads units[0] although nil marks a missing shard
+	kNonce     = "c19-create-units-nonce-unset"      // CreatePropellerUnits signs `nonce` but leaves Unit.Nonce zero
+	kLeaf      = "c19-merkle-leaf-encoding-mismatch" // producer/reconstruction commit to raw shards, validator checks proto-encoded ShardsOfPeer
+	kUnpad     = "c19-unpad-length-overflow"         // UnpadMessage: varintLen+msgLen wraps for msgLen >= 2^64-10 -> slice panic
+	kFromProto = "c19-unitfromproto-malformed-panic" // UnitFromProto panics on zero shards / merkle_root shorter than 32 bytes
 )
 
 // safely runs code under test and returns the recovered panic value, if any. Never call
